@@ -89,7 +89,8 @@ def run_tier(tier, tables, tag, only=None):
 
 
 MATCH_UNIVERSES = {"quick": {"U1": 1, "U3": 1, "U4": 1, "U11": 1, "U13": 2},
-                   "thorough": {"U1": 2, "U3": 1, "U4": 2, "U5": 2, "U10": 2, "U11": 2, "U13": 2, "U14": 2}}
+                   # (U1 with two equations: 562 states x 29 patterns did not finish in 25 minutes)
+                   "thorough": {"U1": 1, "U3": 1, "U4": 2, "U5": 2, "U7": 2, "U10": 2, "U11": 2, "U13": 2, "U14": 2}}
 
 
 def run_matches(tier, tables, tag, only=None):
